@@ -62,3 +62,7 @@ Print Assumptions C06_only_flagged_written.
 Example C06_nonvacuous : exists M, orth M /\ mdet M = 1 /\
   mvmul M (1, 0, 0) = (0, 1, 0).
 Proof. exact rot_nonvacuous. Qed.
+
+(* non-vacuity of the translated text itself: theta_z = 90 degrees turns x into y *)
+Example C06_nonvacuous_gen : rotate_xyz (cons (1,0,0) nil) 0 1 0 1 1 0 = cons (0,1,0) nil.
+Proof. exact rot_nonvacuous_gen. Qed.
